@@ -56,7 +56,7 @@ def run(ctx):
                     stages,
                     rule="runq/sync: queue snapshots of 0-16 entries (all states, tied/zero/negative priorities) x scripted pool answers "
                          "x process situations (absent, alive, exited before/after/at the last queue update) x latch x unknown-workers, "
-                         "exhaustive for one entry; queue: 1-6 API records, changes between polls, a local Lock/Unlock/Cancel or a foreign state change at 5 positions relative to the poll; wp: 15-60 operations (sync listings, create, whole and split probes, start, start "
+                         "exhaustive for one entry; queue: 1-6 API records, changes between polls, a local Lock/Unlock/Cancel or a foreign state change at 5 positions relative to the poll; wp: 15-60 operations (instance-list syncs through getInstancesAndSync, whole or split into request issued / answer applied with other operations in between, create, whole and split probes, start, start "
                          "command returning, kill, SIGTERM success, give-up, forget, idle behaviour, shutdown, sweep, restart) on 1-2 "
                          "instance types with left-over instances/processes/tags, probe timeout 1 ns in 1/3 of the scenarios, directed strata "
                          "(probe answered before the process exists and applied after the start command returned, then kill/forget/start again; "
